@@ -144,7 +144,7 @@ fn run(input: RunInput) -> ScenFuture {
                         }
                         // H calling the adversary back: the response must be attributed to K'
                         serve_one_claiming(&c, x_id);
-                        if let Ok(resp) = rpc_bounded(&h, adv_id, Request::new(Bytes::from_static(b"who-are-you")), Duration::from_secs(3)).await {
+                        if let Ok(resp) = rpc_bounded(&h, adv_id, Request::new(Bytes::from_static(b"who-are-you")).with_extension(x_id), Duration::from_secs(3)).await {
                             check_id(&w, resp.peer_id().copied(), adv_id, "response-attributed-to-wrong-identity", "H calls admitted adversary");
                         }
                         sleep_ms(r.gen_range(0..300)).await;
@@ -212,7 +212,7 @@ fn run(input: RunInput) -> ScenFuture {
                         if let Some(ph) = h.net.peer(pid) {
                             check_id(&w, Some(ph.peer_id()), adv_id, "peer-handle-attributed-to-wrong-identity", &format!("role {role} strategy {strat}"));
                         }
-                        if let Ok(resp) = rpc_bounded(&h, pid, Request::new(Bytes::from_static(b"hello")), Duration::from_secs(3)).await {
+                        if let Ok(resp) = rpc_bounded(&h, pid, Request::new(Bytes::from_static(b"hello")).with_extension(x_id), Duration::from_secs(3)).await {
                             check_id(&w, resp.peer_id().copied(), adv_id, "response-attributed-to-wrong-identity", &format!("role {role} strategy {strat}"));
                         }
                         let _ = h.net.disconnect(pid);
@@ -282,7 +282,7 @@ fn run(input: RunInput) -> ScenFuture {
                     Ok(pid) => {
                         check_id(&w, Some(pid), adv_id, "dial-returned-identity-the-remote-does-not-hold", "plain dial of an address that changed hands");
                         w.check(h.net.peers().contains(&adv_id) && !h.net.peers().contains(&x_id), "listed-identity-nobody-holds", "address-changed-hands", || format!("after dialing X's former address H lists {:?}", h.net.peers().iter().map(|p| w.pname(p)).collect::<Vec<_>>()));
-                        if let Ok(resp) = rpc_bounded(&h, pid, Request::new(Bytes::from_static(b"hello")), Duration::from_secs(3)).await {
+                        if let Ok(resp) = rpc_bounded(&h, pid, Request::new(Bytes::from_static(b"hello")).with_extension(x_id), Duration::from_secs(3)).await {
                             check_id(&w, resp.peer_id().copied(), adv_id, "response-attributed-to-wrong-identity", "address that changed hands");
                         }
                         let _ = h.net.disconnect(pid);
